@@ -125,7 +125,7 @@ def units(tier):
     return u
 
 
-BUDGET = {"quick": 200, "thorough": 1800}
+BUDGET = {"quick": 200, "thorough": 1200}
 UNIT_PATH_CAP = {"quick": 500, "thorough": 30000}
 BOUNDS = {
     "quick": "sequences of 1-2 messages over types {A(int32,string), B(repeated sint32, nested A, optional uint32), Empty}; values one byte wide, strings <= 1 code point, "
